@@ -16,6 +16,7 @@ from .gv import GV
 from .sbytes import SBytes, byte_of, from_bytes, to_bytes
 from .sstr import SStr, Fmt, fmt_value, str_of, hex_of_bytes, sstr_concat
 
+_LITERAL_CACHE = {}
 MAX_PATHS = 20000
 MAX_LOOP = 600
 
@@ -625,6 +626,18 @@ class Exec:
         if kind == 'class':
             return ClassVal(r[1])
         if kind == 'const':
+            ck = (r[2], n)
+            if ck in _LITERAL_CACHE:
+                return _LITERAL_CACHE[ck]
+            try:
+                v = ast.literal_eval(r[1])
+                if isinstance(v, dict):
+                    from .builtins import register_const_table
+                    register_const_table(v, n)
+                    _LITERAL_CACHE[ck] = v
+                    return v
+            except (ValueError, SyntaxError, TypeError):
+                pass
             v = self.eval(r[1], Frame(r[2]))
             self.ghost[key] = v
             return v
